@@ -105,8 +105,10 @@ def entries(ctx):
         pass
     try:
         from mc.props import c11
-        for w in c11.configs(tier)[:: (2 if ctx.quick else 1)]:
-            add("C11:" + w["tag"], B.to_yaml(w["spec"]), "metrics")
+        for i, w in enumerate(c11.configs(tier)):
+            # (the single inputs of the known findings F15/F16 are always part of the corpus, whatever the slice)
+            if not ctx.quick or i % 2 == 0 or w["tag"].startswith(("mm/occ|mrgx:A|", "gamma-fmt-mismatch")):
+                add("C11:" + w["tag"], B.to_yaml(w["spec"]), "metrics")
     except ImportError:
         pass
     return es
